@@ -87,7 +87,7 @@ TMk == /\ Ev("mk")
 TMkElem == Ev("mk_elem") /\ MkElem(ZId(R.id)) /\ UNCHANGED xVars
 TCall == Ev("call") /\ Call(ZCall(R)) /\ UNCHANGED xVars
 TRet == Ev("ret") /\ LET r == ZRet(R) IN (RetPlain(r) \/ RetCb(r) \/ RetCloneFrom(r) \/ RetSearch(r) \/ RetX(r)) /\ UNCHANGED xVars
-TUnwound == Ev("unwound") /\ LET u == IF Anonymous THEN [R EXCEPT !.obs = ZObs(@)] ELSE R IN (Unwound(u) \/ UnwoundCloneFrom(u) \/ UnwoundX(u))
+TUnwound == Ev("unwound") /\ LET u == IF Anonymous THEN [R EXCEPT !.obs = ZObs(@)] ELSE R IN (Unwound(u) \/ UnwoundCloneFrom(u) \/ UnwoundSearchKeep(u) \/ UnwoundX(u))
             /\ UNCHANGED xVars
 TCb == Ev("cb") /\ Cb(ZCb(R)) /\ UNCHANGED xVars
 TCbRet == Ev("cb_ret") /\ CbRet(ZCbRet(R)) /\ UNCHANGED xVars
